@@ -1,7 +1,11 @@
 /- C02 driver: `C02 run <req> <prog>` (model), `C02 parse <isHead> <wire> <eof>` (Spec.clientParse),
-   `C02 chunks [x…]` (chunk encoding of a chunk list, then Spec.readChunked) -/
+   `C02 chunks [x…]` (chunk encoding of a chunk list, then Spec.readChunked).
+   `runz` / `parsez` are `run` / `parse` for large payloads: every byte-string argument may be a descriptor
+   (`Rle`: `x…` | `[rep,x<pat>,n]` | `[cat,B,…]`, expanded here before the model / spec sees it) and every
+   byte string in the reply is sent as `Rle.compress` of it (expanded by the harness before comparing). -/
 import TornadoModel.Base.Wire
 import TornadoModel.C02.Spec
+import TornadoModel.C02.Rle
 namespace TornadoModel.C02.Drv
 open TornadoModel TornadoModel.Wire TornadoModel.C02
 
@@ -17,15 +21,33 @@ def decReq (v : V) : Option Req := do
   | [m, v11, c, inm] => pure { method := ← decMethod m, v11 := ← v11.bool?, conn := ← decConn c, inmMatch := ← inm.bool? }
   | _ => none
 
+/-- a byte-string argument: literal or `Rle` descriptor -/
+partial def decB : V → Option Bytes
+  | .bytes b => some (b.map UInt8.toNat)
+  | .list [.atom "rep", .bytes p, .int n] => if 0 ≤ n then some (Rle.cyc (p.map UInt8.toNat) n.toNat) else none
+  | .list (.atom "cat" :: parts) => (parts.mapM decB).map List.flatten
+  | _ => none
+
+def encSeg : Rle.Seg → V
+  | .lit b => V.ofByteNats b
+  | .rep p n => .list [.atom "rep", V.ofByteNats p, .int n]
+
+/-- a byte string of the reply: short ones literally, long ones as `Rle.compress` -/
+def encB (bs : Bytes) : V :=
+  if bs.length < 256 then V.ofByteNats bs
+  else match Rle.compress bs with
+    | [.lit b] => V.ofByteNats b
+    | segs => .list (.atom "cat" :: segs.map encSeg)
+
 def decOp (v : V) : Option Op := do
   match ← v.list? with
   | [.atom "status", c] => pure (.setStatus (← c.nat?))
   | [.atom "set", n, x] => pure (.setHeader (← n.cps?) (← x.cps?))
   | [.atom "add", n, x] => pure (.addHeader (← n.cps?) (← x.cps?))
   | [.atom "clear", n] => pure (.clearHeader (← n.cps?))
-  | [.atom "write", b] => pure (.write (← b.byteNats?))
+  | [.atom "write", b] => pure (.write (← decB b))
   | [.atom "flush"] => pure .flush
-  | [.atom "finish", b] => if b.isNone then pure (.finish none) else pure (.finish (some (← b.byteNats?)))
+  | [.atom "finish", b] => if b.isNone then pure (.finish none) else pure (.finish (some (← decB b)))
   | _ => none
 
 def encDelim : Spec.Delim → V
@@ -40,6 +62,14 @@ def encParse : Spec.R (Spec.Resp × Bytes) → List V
      .list (r.headers.map (fun (n, v) => .list [V.ofByteNats n, V.ofByteNats v])),
      V.ofByteNats r.body, encDelim r.delim, V.ofByteNats rest]
 
+def encParseZ : Spec.R (Spec.Resp × Bytes) → List V
+  | .incomplete => [.atom "incomplete"]
+  | .malformed => [.atom "malformed"]
+  | .ok (r, rest) =>
+    [.atom "response", .int r.status, V.ofByteNats r.reason,
+     .list (r.headers.map (fun (n, v) => .list [V.ofByteNats n, V.ofByteNats v])),
+     encB r.body, encDelim r.delim, encB rest]
+
 def handle (toks : List String) : String :=
   match toks.mapM V.parse with
   | none => err "bad-arg"
@@ -51,6 +81,16 @@ def handle (toks : List String) : String :=
         let s := run rq ops
         ok [V.ofByteNats (wire s.conn), V.ofBool s.conn.closed]
       | _, _ => err "bad-op"
+    | [.atom "runz", rq, prog] =>
+      match decReq rq, prog.list? >>= (·.mapM decOp) with
+      | some rq, some ops =>
+        let s := run rq ops
+        ok [encB (wire s.conn), V.ofBool s.conn.closed]
+      | _, _ => err "bad-op"
+    | [.atom "parsez", hd, w, eof] =>
+      match hd.bool?, decB w, eof.bool? with
+      | some hd, some w, some eof => ok (encParseZ (Spec.clientParse hd w eof))
+      | _, _, _ => err "bad-arg"
     | [.atom "parse", hd, w, eof] =>
       match hd.bool?, w.byteNats?, eof.bool? with
       | some hd, some w, some eof => ok (encParse (Spec.clientParse hd w eof))
